@@ -276,3 +276,86 @@ def c19_3(I, shape):
     if accepted:
         I.check(snap_equal(snapshot(v), snapshot(v.validate())),
                 "validate-idempotent")
+
+
+# ---------------------------------------------------------------------------
+# C19.4  pairs of validated settings between two live endpoints
+# ---------------------------------------------------------------------------
+from models import pair as P
+from models.hello import settings_family
+from obl.C03 import PAIR_RND12, _pair12_patches
+from tlslite.constants import CipherSuite, ContentType
+from symx.core import seq_eq
+
+
+def _shapes_c19_4(tier):
+    names = sorted(settings_family())
+    out = []
+    for a in names:
+        for b in names:
+            if tier == "quick" and a != b and \
+                    (names.index(a) + names.index(b)) % 3:
+                continue
+            out.append(dict(client=a, server=b))
+    return out
+
+
+@obligation("C19.4", _shapes_c19_4,
+            functions=["tlslite.handshakesettings:HandshakeSettings.validate",
+                       "tlslite.tlsconnection:TLSConnection."
+                       "_handshakeClientAsyncHelper",
+                       "tlslite.tlsconnection:TLSConnection."
+                       "_handshakeServerAsyncHelper",
+                       "tlslite.constants:CipherSuite._filterSuites"],
+            assumes=P.PAIR_ASSUMES + [
+                "client and server settings are taken from the fixed family "
+                "of 13 validated HandshakeSettings (version ranges, cipher / "
+                "MAC / key-exchange / curve restrictions); RSA server "
+                "certificate; tickets off"],
+            patches=_pair12_patches, max_paths=64, timeout=(600, 1800),
+            also=("C03",))
+def c19_4(I, shape):
+    """for every pair of validated settings the handshake either completes on
+    both sides - then version and suite agree and lie inside both settings -
+    or fails on both sides with a fatal alert on the wire; identical settings
+    always connect; nothing else (no raw exception, no one-sided completion,
+    no stall)"""
+    fam = settings_family()
+    cset, sset = fam[shape["client"]], fam[shape["server"]]
+    import copy
+    cset, sset = copy.copy(cset), copy.copy(sset)
+    cset.ticket_count = sset.ticket_count = 0
+    sc = P.Scenario(I, PAIR_RND12, cset, sset, server_cred="rsa")
+    sc.run()
+    for ep, nm in ((sc.cep, "client"), (sc.sep, "server")):
+        I.check(ep.crash is None, "no-raw-exception-from-the-handshake",
+                detail=lambda: dict(side=nm, tb=ep.crash))
+        I.check(ep.done, "no-stall", detail=lambda: dict(side=nm))
+    cdone, sdone = sc.completed(sc.cep), sc.completed(sc.sep)
+    I.check(cdone == sdone, "completion-is-mutual",
+            detail=lambda: dict(c=repr(sc.cep.error), s=repr(sc.sep.error)))
+    if shape["client"] == shape["server"]:
+        I.check(cdone and sdone, "identical-settings-connect",
+                detail=lambda: dict(c=repr(sc.cep.error),
+                                    s=repr(sc.sep.error)))
+    if not (cdone and sdone):
+        recs = P.wire_records(sc.wire)
+        I.check(any(ct == ContentType.alert for who, ct, ver, p in recs),
+                "a-failed-negotiation-sends-an-alert")
+        I.cover("refused")
+        return
+    c, s = sc.c, sc.s
+    v = c.version
+    I.check(c.version == s.version, "version-agreed")
+    I.check(cset.minVersion <= v <= cset.maxVersion and
+            sset.minVersion <= v <= sset.maxVersion,
+            "version-inside-both-settings",
+            detail=lambda: dict(v=v))
+    suite = c.session.cipherSuite
+    I.check(suite == s.session.cipherSuite, "suite-agreed")
+    for st, nm in ((cset, "client"), (sset, "server")):
+        I.check(suite in CipherSuite._filterSuites([suite], st, v),
+                "suite-inside-%s-settings" % nm,
+                detail=lambda: dict(suite=hex(suite)))
+    I.check(seq_eq(list(c.session.masterSecret),
+                   list(s.session.masterSecret)), "master-secret-agreed")
